@@ -29,3 +29,18 @@ Corollary C18_unlisted_types_untouched : forall (f : list Z) fuel n r S C,
   g_loop fuel f n r [] [] = Ok (SFOk S C).
 Proof. intros f fuel n r S C L1 L2 H Hw. rewrite (C18_filter_exact f fuel n r S C H Hw), L1, L2. reflexivity. Qed.
 Print Assumptions C18_unlisted_types_untouched.
+
+(* a LISTED sample is not looked into: once its type and declared length have been read, the loop goes on at the position the
+   declared length gives (Seek), with the samples collected so far unchanged - whatever the body holds, decodable or not, and also
+   when the same datagram without the filter would be rejected because of that body *)
+Theorem C18_listed_sample_is_skipped_by_its_declared_length : forall (f : list Z) fuel n r ss cs ty l r2,
+  0 < n ->
+  catch (t <- sread_u 4 r ;; l <- sread_u 4 (snd t) ;; Ok (fst t, fst l, snd l)) = Ok (Some (ty, l, r2)) ->
+  listed (if ty / 4096 =? 0 then ty mod 4096 else ty) f = true ->
+  g_loop (S fuel) f n r ss cs = g_loop fuel f (n - 1) (sseek l r2) ss cs.
+Proof.
+  intros f fuel n r ss cs ty l r2 Hn Hh Hl. cbn [samples_loop].
+  destruct (n <=? 0) eqn:E; [apply Z.leb_le in E; lia|].
+  rewrite Hh. unfold listed in Hl. rewrite Hl. reflexivity.
+Qed.
+Print Assumptions C18_listed_sample_is_skipped_by_its_declared_length.
